@@ -648,7 +648,11 @@ class SymEx:
         if not falls:
             return others
         st = self.merge([f.state for f in falls], base) if len(falls) > 1 else falls[0].state
-        if len(falls) > 1:
+        if len(falls) > 1 and not others:
+            # every path through the construct rejoins here (e.g. a switch whose cases all `break`):
+            # the join is reached under the condition the construct was entered with
+            st.pc = tuple(base)
+        elif len(falls) > 1:
             # the merged state is reached under the disjunction of the fall-through conditions
             d = FALSE
             for f in falls:
@@ -777,6 +781,8 @@ class SymEx:
         ls.func = self.frames[-1].func
         self.loops.append(ls)
         s_flag = self.rewrite_flag_loop(st, s)
+        if s_flag is None and s.op == 'do':
+            s_flag = self.rewrite_do_loop(st, s)
         if s_flag is not None:
             s = s_flag
             ls.node = s
@@ -871,41 +877,185 @@ class SymEx:
             return None
         cnode = s.k[1] if s.op == 'for' else s.k[0]
         body = s.k[-1]
+        always = cnode is None or (cnode.op == 'lit' and cnode.a.get('value') is True)
+        if always and body is not None and body.op == 'block' and body.k and \
+                (s.op == 'while' or (s.k[0] is None and s.k[2] is None)):
+            # form (d): `while (true) { if (C) break; rest }`  ==  `while (!C) { rest }`
+            first = body.k[0]
+            if first is not None and first.op == 'if' and (len(first.k) < 3 or first.k[2] is None):
+                then = first.k[1]
+                stmts = then.k if then is not None and then.op == 'block' else [then]
+                if len(stmts) == 1 and stmts[0] is not None and stmts[0].op == 'break':
+                    loc = s.loc
+                    ncond = N('un', [first.k[0]], loc=loc, o='!', ty='bool')
+                    nbody = N('block', list(body.k[1:]), loc=body.loc, cid=body.cid)
+                    return N('while', [ncond, nbody], loc=s.loc, cid=s.cid, **s.a)
+            return None
+        if s.op == 'while' and cnode is not None and cnode.op == 'var' and body is not None and body.op == 'block' \
+                and body.k and (cnode.ty or '').replace('const ', '') == 'bool':
+            # form (c): `flag = C; while (flag) { ...; flag = D && C; }` (C is the loop condition proper,
+            # re-evaluated after the body; D the decision to go on)  ==  `while (C) { ...; if (!D) break; }`
+            fid = cnode.a['id']
+            last = body.k[-1]
+            a_ = last.k[0] if last is not None and last.op == 'expr' and last.k else last
+            if a_ is None or a_.op != 'assign' or a_.a.get('o') != '=' or a_.k[0].op != 'var' or \
+                    a_.k[0].a.get('id') != fid or a_.k[1].op != 'bin' or a_.k[1].a.get('o') != '&&':
+                return None
+            for part in body.k[:-1]:
+                if part is not None and any(n.op == 'var' and n.a.get('id') == fid for n in part.walk()):
+                    return None
+            init_val = st.env.get(fid)
+            for X, D in ((a_.k[1].k[1], a_.k[1].k[0]), (a_.k[1].k[0], a_.k[1].k[1])):
+                if any(n.op == 'call' or (n.op == 'opcall' and n.a.get('opname') not in
+                                          ('operator!=', 'operator==', 'operator<', 'operator+', 'operator-', 'operator*'))
+                       or (n.op == 'mcall' and n.a.get('name') not in ('begin', 'end', 'cbegin', 'cend', 'size', 'empty'))
+                       for n in X.walk()):
+                    continue
+                neff = len(self.effects)
+                try:
+                    xv = self.cond(st.copy(), X)
+                except AnalysisBroken:
+                    xv = None
+                del self.effects[neff:]
+                if xv is not None and xv == init_val:
+                    loc = s.loc
+                    brk = N('if', [N('un', [D], loc=loc, o='!', ty='bool'), N('block', [N('break', loc=loc)], loc=loc)],
+                            loc=loc)
+                    nbody = N('block', list(body.k[:-1]) + [brk], loc=body.loc, cid=body.cid)
+                    return N('while', [X, nbody], loc=s.loc, cid=s.cid, **s.a)
+            return None
         if cnode is None or cnode.op != 'bin' or cnode.a.get('o') != '&&' or body is None or body.op != 'block' \
                 or not body.k:
             return None
         fl = other = None
+        pos = True
         for a, b in ((cnode.k[0], cnode.k[1]), (cnode.k[1], cnode.k[0])):
             if a.op == 'var' and (a.ty or '').replace('const ', '') == 'bool':
                 fl, other = a, b
                 break
+            if a.op == 'un' and a.a.get('o') == '!' and a.k[0].op == 'var' and \
+                    (a.k[0].ty or '').replace('const ', '') == 'bool':
+                # `!stop && C`: the flag with the opposite polarity
+                fl, other, pos = a.k[0], b, False
+                break
         if fl is None:
             return None
         fid = fl.a['id']
-        if st.env.get(fid) != TRUE or fid in st.refs:
+        if st.env.get(fid) != (TRUE if pos else FALSE) or fid in st.refs:
             return None
         last = body.k[-1]
-        asg = last.k[0] if last is not None and last.op == 'expr' and last.k else last
-        if asg is None or asg.op != 'assign' or asg.a.get('o') != '=' or asg.k[0].op != 'var' or \
-                asg.k[0].a.get('id') != fid:
-            return None
-        # no other use of the flag in the body or in the other half of the condition
-        uses = 0
-        for part in list(body.k[:-1]) + [asg.k[1], other] + ([s.k[2]] if s.op == 'for' and s.k[2] is not None else []):
-            if part is None:
-                continue
-            for n in part.walk():
-                if n.op == 'var' and n.a.get('id') == fid:
-                    uses += 1
-        if uses:
-            return None
         loc = s.loc
-        notflag = N('un', [N('var', ty='bool', loc=loc, id=fid, name=fl.a.get('name'))], loc=loc, o='!', ty='bool')
-        brk = N('if', [notflag, N('block', [N('break', loc=loc)], loc=loc)], loc=loc)
-        nbody = N('block', list(body.k) + [brk], loc=body.loc, cid=body.cid)
+
+        def is_flag_assign(n_):
+            a_ = n_.k[0] if n_ is not None and n_.op == 'expr' and n_.k else n_
+            if a_ is not None and a_.op == 'assign' and a_.a.get('o') == '=' and a_.k[0].op == 'var' and \
+                    a_.k[0].a.get('id') == fid:
+                return a_
+            return None
+
+        def uses_in(parts):
+            u = 0
+            for part in parts:
+                if part is None:
+                    continue
+                for n in part.walk():
+                    if n.op == 'var' and n.a.get('id') == fid:
+                        u += 1
+            return u
+
+        def flagvar():
+            return N('var', ty='bool', loc=loc, id=fid, name=fl.a.get('name'))
+
+        def goes_on(c_):
+            """is the condition `c_` the test "the flag says go on"?"""
+            if c_ is None:
+                return False
+            while c_.op in ('paren',) and c_.k:
+                c_ = c_.k[0]
+            if pos:
+                return c_.op == 'var' and c_.a.get('id') == fid
+            return c_.op == 'un' and c_.a.get('o') == '!' and c_.k[0].op == 'var' and c_.k[0].a.get('id') == fid
+        tail = [other] + ([s.k[2]] if s.op == 'for' and s.k[2] is not None else [])
+        where_asg = [i for i, x in enumerate(body.k) if is_flag_assign(x) is not None]
+        if len(where_asg) == 1:
+            # form (a): `A; flag = E; B` where every statement of B is `if (flag) { ... }`: the rest of the
+            # body does nothing once the flag says stop, so the loop is `A; flag = E; if (!flag) break; B'`
+            k = where_asg[0]
+            asg = is_flag_assign(body.k[k])
+            rest = []
+            for x in body.k[k + 1:]:
+                if x is None or x.op == 'null':
+                    continue
+                if x.op == 'if' and (len(x.k) < 3 or x.k[2] is None) and goes_on(x.k[0]):
+                    then = x.k[1]
+                    rest.extend(then.k if then is not None and then.op == 'block' else [then])
+                else:
+                    return None
+            if uses_in(list(body.k[:k]) + [asg.k[1]] + tail + rest):
+                return None
+            stopc = N('un', [flagvar()], loc=loc, o='!', ty='bool') if pos else flagvar()
+            brk = N('if', [stopc, N('block', [N('break', loc=loc)], loc=loc)], loc=loc)
+            nbody = N('block', list(body.k[:k + 1]) + [brk] + rest, loc=body.loc, cid=body.cid)
+        elif last is not None and last.op == 'if' and (len(last.k) < 3 or last.k[2] is None):
+            # form (b): `...; if (C) { flag = false; }`
+            then = last.k[1]
+            stmts = then.k if then is not None and then.op == 'block' else [then]
+            if len(stmts) != 1:
+                return None
+            a2 = is_flag_assign(stmts[0])
+            if a2 is None or not (a2.k[1].op == 'lit' and a2.k[1].a.get('value') is (not pos)):
+                return None
+            if uses_in(list(body.k[:-1]) + [last.k[0]] + tail):
+                return None
+            nthen = N('block', [stmts[0], N('break', loc=loc)], loc=loc)
+            nlast = N('if', [last.k[0], nthen], loc=last.loc, cid=last.cid)
+            nbody = N('block', list(body.k[:-1]) + [nlast], loc=body.loc, cid=body.cid)
+        else:
+            return None
         if s.op == 'for':
             return N('for', [s.k[0], other, s.k[2], nbody], loc=s.loc, cid=s.cid, **s.a)
         return N('while', [other, nbody], loc=s.loc, cid=s.cid, **s.a)
+
+    def rewrite_do_loop(self, st, s):
+        """`do { body } while (c);` whose condition provably holds on entry (under the current path
+        condition; sizes are non-negative) is `while (c) { body }`.  Returns the rewritten node or None."""
+        body, cnode = s.k[0], s.k[1]
+        if cnode is None or body is None:
+            return None
+        neff = len(self.effects)
+        try:
+            c0 = self.cond(st.copy(), cnode)
+        except AnalysisBroken:
+            return None
+        finally:
+            del self.effects[neff:]
+        from .rules.common import simplify_under, norm_cond
+        c0 = simplify_under(c0, st.pc)
+
+        def positive(t):
+            # size + k with k >= 1, or a positive literal
+            if is_num(t):
+                return t[1] > 0
+            if isinstance(t, tuple) and t and t[0] == '+':
+                a, b = t[1], t[2]
+                return (nonneg(a) and positive(b)) or (positive(a) and nonneg(b))
+            return False
+
+        def nonneg(t):
+            if is_num(t):
+                return t[1] >= 0
+            if isinstance(t, tuple) and t and t[0] == 'size':
+                return True
+            if isinstance(t, tuple) and t and t[0] in ('+', '*'):
+                return nonneg(t[1]) and nonneg(t[2])
+            return positive(t)
+        n = norm_cond(c0)
+        if isinstance(n, tuple) and len(n) == 3 and n[0] == '!=' and \
+                ((n[1] == ZERO and positive(n[2])) or (n[2] == ZERO and positive(n[1]))):
+            c0 = TRUE
+        if c0 != TRUE:
+            return None
+        return N('while', [cnode, body], loc=s.loc, cid=s.cid, **s.a)
 
     def discover_induction(self, st, s):
         """`while` loops and `for` loops without a plain counting header: find the counter by a trial
@@ -1580,12 +1730,30 @@ class SymEx:
         if op == 'opcall' and e.a.get('opname') == 'operator[]' and len(e.k) == 2:
             bl = self.eval_lv(st, e.k[0])
             if bl is None:
+                bv = self.eval(st, e.k[0])
+                if isinstance(bv, tuple) and bv and bv[0] == 'iter' and is_lv(bv[1]):
+                    return ('lv', bv[1][1], bv[1][2] + (('i', add(bv[2], self.eval(st, e.k[1]))),))
                 return None
+            if 'iterator' in ir.strip_cvref(e.k[0].ty or ''):
+                # it[k] for an iterator into a container: element it.position + k
+                try:
+                    bv = self.read(st, bl)
+                except Exception:
+                    bv = None
+                if isinstance(bv, tuple) and bv and bv[0] == 'iter' and is_lv(bv[1]):
+                    return ('lv', bv[1][1], bv[1][2] + (('i', add(bv[2], self.eval(st, e.k[1]))),))
             return ('lv', bl[1], bl[2] + (('i', self.eval(st, e.k[1])),))
         if op == 'index':
             bl = self.eval_lv(st, e.k[0])
             if bl is None:
                 return None
+            try:
+                bv = self.read(st, bl)
+            except Exception:
+                bv = None
+            if isinstance(bv, tuple) and bv and bv[0] == 'iter' and is_lv(bv[1]):
+                # p[k] for a pointer / iterator p into a container: element p.position + k
+                return ('lv', bv[1][1], bv[1][2] + (('i', add(bv[2], self.eval(st, e.k[1]))),))
             return ('lv', bl[1], bl[2] + (('i', self.eval(st, e.k[1])),))
         if op == 'lvref':
             return e.a['lv']
@@ -2042,6 +2210,9 @@ class SymEx:
                         root_lv = ('lv', lv[1], lv[2][:-1]) if lv[2] and lv[2][-1][0] == 'i' else lv
                         cur = self.read(st, root_lv)
                         self.write(st, root_lv, ('allreduce', cur))
+                    elif isinstance(pv, tuple) and pv and pv[0] == 'iter' and is_lv(pv[1]) and pv[2] == ZERO:
+                        cur = self.read(st, pv[1])
+                        self.write(st, pv[1], ('allreduce', cur))
                     continue
                 if a.op == 'un' and a.a.get('o') == '&':
                     lv = self.eval_lv(st, a.k[0])
@@ -2315,7 +2486,8 @@ class SymEx:
                 self.write(st, lv, vempty())
             return ('void',)
         if name == 'data':
-            return ('ptr', ('lv', lv[1], lv[2] + (('i', ZERO),))) if lv is not None else ('addr', vec)
+            # pointer to the first element: behaves like begin() under +, +=, [], * (contiguous storage)
+            return ('iter', lv, ZERO) if lv is not None else ('addr', vec)
         if name == 'fill':
             v = self.eval(st, args[0])
             if lv is not None:
@@ -2518,6 +2690,15 @@ class SymEx:
                 self.write(st, lv, v)
             return v
         if opn == 'operator<<' and len(args) == 2 and is_stream_type(t0):
+            if args[1].op == 'fref' and args[1].a.get('hep'):
+                # a library-defined manipulator `std::ostream& f(std::ostream&)`: `out << f` calls f(out)
+                mf = self.p.funcs.get(args[1].a['id'])
+                if mf is not None and mf.body is not None and len(mf.params) == 1 and \
+                        is_stream_type(ir.strip_cvref(mf.params[0].type or '')) and \
+                        strip_targs(mf.qualname) not in self.opaque:
+                    s = self.eval(st, args[0])
+                    self.bind_and_run(st, mf, [N('term', term=s, loc=e.loc, ty=args[0].ty)], self.frames[-1].this_lv, e)
+                    return s
             s = self.eval(st, args[0])
             item = self.eval(st, args[1])
             self.effect(st, 'out', stream=s, item=item, where=e.where(), node=e.cid,
